@@ -1,6 +1,6 @@
 (* Model/Run.v — glue between generated correspondence cases and the interpreter models:
    canonical observations and verdict functions.  Definitions only. *)
-From TSG Require Export Model.Strict.
+From TSG Require Export Model.Strict Model.Regex.
 
 (* canonical view of a graph: attributes sorted by name *)
 Definition canon_attrs (m : amap) : amap := sort_alist m.
@@ -41,25 +41,24 @@ Definition mini_call (f : ident) (g : graph) (args : list value) : res (value * 
     | _ => Err EInvalidParameters
     end
   else Err EUndefinedFunction.
-Definition no_find (r : unit) (s : str) : option (list (option (N * N))) := None.
 
 Definition default_fuel : nat := 300.
 
 Definition graph_of {E} (r : outcome E (sstate * polls)) : outcome E graph :=
   match r with Ok (s, _) => Ok (s_graph s) | Err e => Err e | Panic p => Panic p | OutOfFuel => OutOfFuel end.
 
-Definition c01_verdict (t : tree) (fl : file) (supplied : globals) (matches : list (list qmatch)) (x : expect) : N :=
-  compare_outcome (graph_of (run_strict t fl config0 supplied None [] no_find mini_call default_fuel matches [])) x.
-Definition c01_detail (t : tree) (fl : file) (supplied : globals) (matches : list (list qmatch)) :=
-  match run_strict t fl config0 supplied None [] no_find mini_call default_fuel matches [] with
+Definition c01_verdict (t : tree) (fl : file) (rxs : list regex) (supplied : globals) (matches : list (list qmatch)) (x : expect) : N :=
+  compare_outcome (graph_of (run_strict t fl config0 supplied None rxs rx_captures mini_call default_fuel matches [])) x.
+Definition c01_detail (t : tree) (fl : file) (rxs : list regex) (supplied : globals) (matches : list (list qmatch)) :=
+  match run_strict t fl config0 supplied None rxs rx_captures mini_call default_fuel matches [] with
   | Ok (s, _) => Ok (canon_graph (s_graph s)) | Err e => Err e | Panic p => Panic p | OutOfFuel => OutOfFuel end.
 
 (* ---- lazy runs ---- *)
 From TSG Require Export Model.Lazy.
 Definition lgraph_of {E} (r : outcome E (lstate * polls)) : outcome E graph :=
   match r with Ok (s, _) => Ok (l_graph s) | Err e => Err e | Panic p => Panic p | OutOfFuel => OutOfFuel end.
-Definition lazy_verdict (t : tree) (fl : file) (supplied : globals) (matches : list (N * qmatch)) (x : expect) : N :=
-  compare_outcome (lgraph_of (run_lazy t fl config0 supplied None [] no_find mini_call default_fuel matches [])) x.
-Definition lazy_detail (t : tree) (fl : file) (supplied : globals) (matches : list (N * qmatch)) :=
-  match run_lazy t fl config0 supplied None [] no_find mini_call default_fuel matches [] with
+Definition lazy_verdict (t : tree) (fl : file) (rxs : list regex) (supplied : globals) (matches : list (N * qmatch)) (x : expect) : N :=
+  compare_outcome (lgraph_of (run_lazy t fl config0 supplied None rxs rx_captures mini_call default_fuel matches [])) x.
+Definition lazy_detail (t : tree) (fl : file) (rxs : list regex) (supplied : globals) (matches : list (N * qmatch)) :=
+  match run_lazy t fl config0 supplied None rxs rx_captures mini_call default_fuel matches [] with
   | Ok (s, _) => Ok (canon_graph (l_graph s)) | Err e => Err e | Panic p => Panic p | OutOfFuel => OutOfFuel end.
